@@ -118,6 +118,13 @@ def mini_parse(text):
     return d
 
 
+def _eq(a, b):
+    try:
+        return bool(a == b) if not isinstance(a, (list, tuple)) else list(a) == list(b)
+    except Exception:
+        return False
+
+
 def run_case(case):
     import spikeglx
     res = Result()
@@ -206,6 +213,25 @@ def run_case(case):
                     text = "".join((f"fileTimeSecs={tsec}" if ln.startswith("fileTimeSecs=") else ln) + "\n" for ln in text.splitlines())
                     res.count("limited_precision_durations")
                 f.write_text(text)
+                # deriving quantities is read-only: the parsed dictionary is the same before and after, and writing it back still round-trips
+                import copy as _copy
+                md0 = spikeglx.read_meta_data(f)
+                snap = _copy.deepcopy(dict(md0))
+                for fn_name in ("_get_type_from_meta", "_get_sync_trace_indices_from_meta", "_get_nchannels_from_meta", "_get_fs_from_meta", "_get_neuropixel_version_from_meta",
+                                "_get_neuropixel_major_version_from_meta", "_get_max_int_from_meta", "_conversion_sample2v_from_meta", "_get_analog_sync_trace_indices_from_meta",
+                                "_get_nshanks_from_meta", "_get_serial_number_from_meta", "geometry_from_meta"):
+                    try:
+                        getattr(spikeglx, fn_name)(md0)
+                    except Exception:
+                        pass          # whether each helper applies to this stream is judged below through the Reader
+                unchanged = set(md0) == set(snap) and all(_eq(md0[k2], snap[k2]) for k2 in snap)
+                res.check(unchanged, "derived:metadata-mutated", f"{k}/{rec.stream}: deriving quantities changed the parsed metadata: keys added {sorted(set(md0) - set(snap))[:4]} "
+                          f"changed {[k2 for k2 in snap if k2 in md0 and not _eq(md0[k2], snap[k2])][:4]}", counter="derived_readonly_checked")
+                f2 = d / f"d{j}.rewritten.meta"
+                spikeglx.write_meta_data(md0, f2)
+                md1 = spikeglx.read_meta_data(f2)
+                res.check(set(md1) == set(snap) and all(_eq(md1[k2], snap[k2]) for k2 in snap), "roundtrip:after-derived-calls",
+                          f"{k}/{rec.stream}: parse -> derive -> write -> parse differs from the first parse (keys {sorted(set(md1) ^ set(snap))[:4]})")
                 sr = spikeglx.Reader(f)
                 res.count("derived_files")
                 lab = f"{k}/{rec.stream}/n={rec.nc}"
